@@ -28,8 +28,8 @@ class Table(object):
         self.build(wire)
 
     # ------------------------------------------------------------------
-    def _setup(self, state, protocol):
-        outs = self.model.setup(state, protocol)
+    def _setup(self, state, protocol, **kw):
+        outs = self.model.setup(state, protocol, **kw)
         if self.dot_dead and 'delay_open' in self.model.world.timers:
             oid = self.model.world.timers['delay_open'][0]
             for poid, st in outs:
@@ -37,10 +37,10 @@ class Table(object):
                 st.heap[oid].fields['status'] = Opaque('status(delay_open)', 'bool')
         return outs
 
-    def _run(self, event, state, target, meth, args=(), kwargs=None, protocol='live', pre=None):
+    def _run(self, event, state, target, meth, args=(), kwargs=None, protocol='live', pre=None, **setup_kw):
         m = self.model
         rows = self.rows.setdefault((event, state), [])
-        for poid, st in self._setup(state, protocol):
+        for poid, st in self._setup(state, protocol, **setup_kw):
             if pre is not None:
                 pre(st, poid)
             oid = {'fsm': m.world.fsm, 'peering': m.world.peering, 'proto': poid}[target]
@@ -86,7 +86,8 @@ class Table(object):
             self._tcp_up(state)
             self._stale_lost(state)
             # FSM message events, called directly
-            self._run('OPEN_OK', state, 'fsm', 'open_received', protocol='live')
+            # the FSM's OPEN event comes after the protocol negotiated: hold time and keepalive period are related
+            self._run('OPEN_OK', state, 'fsm', 'open_received', protocol='live', hold_partition=True)
             self._run('HDR_ERR', state, 'fsm', 'header_error', [Opaque('sub'), Opaque('data')],
                       protocol='live')
             self._run('OPEN_ERR', state, 'fsm', 'open_message_error', [Opaque('sub'), Opaque('data')],
